@@ -55,6 +55,20 @@ CLAIMED = {
         'top <= T <= bottom for ordered end members under replace, T rises with depth and falls with age (two-copy query on one model object), and the prescribed temperatures are attained at the model\'s own top (and bottom, linear).',
    note=TB + 'plate-model Fourier sums and the mass-conserving / slab plate-model envelopes are NOT covered (they need real analysis beyond contract axioms, DESIGN.md section 4 C20); rounding outside the claim.',
    technique='symbolic execution of clang LLVM IR + z3 (QF_NRA + uninterpreted erfc/sqrt/exp with monotonicity instances)', design='4/C20'),
+ 'C06': dict(
+   text='Narrowed scope (the planar-construction geometry itself is not decidable with the installed solvers, see level_note): with the geometric kernel replaced by a stub returning an arbitrary result, the real SubductingPlate/Fault::properties are proved to paint exactly the points whose signed distance lies within the bilinearly interpolated top truncation/thickness '
+        '(fault: half thickness either side), whose along-surface distance lies within the interpolated length and whose depth lies in [min depth, max depth]; and distance_to_feature_plane is proved to call the kernel with the same start radius, reference point and tables and to return its two distances unchanged.',
+   note=TB + 'NOT covered: that distance_point_from_curved_planes equals the straight-trench planar construction (150x10 Newton/line-search iterations, acos/tan/sin/cos: no contract-axiom reading decides it; DESIGN.md 4/C06). For faults the trace itself (along-surface distance exactly 0) is not asserted; the fault public query passes only_positive=false (signed distance) which is accepted.',
+   technique='symbolic execution of clang LLVM IR + z3 (QF_NRA), kernel and models replaced by environment stubs, 2-3 sections x 1-2 segments', design='4/C06'),
+ 'C07': dict(
+   text='Bounding boxes: every point within the closed box is accepted (all finite doubles bit-precisely for the default tolerance, and over the reals for any tolerance >= 0), the spherical wrapper is the disjunction over the two longitude aliases, extend() moves both corners. '
+        'Slab/fault pre-filter (depth cut-off and buffered bounding box): under the planar-construction contract on the kernel result (a member lies at most d_along+|d_perp| below min depth and sideways of its trench foot) no point satisfying the membership definition is discarded, for every table within the bound. The min/max pre-test before depth surfaces is covered by C11.bound.',
+   note=TB + 'assumes the invariant parse_entries establishes (stored maxima dominate the tables, box = coordinate box + buffer); the parse-time buffer formulas, the spherical 1/cos(lat) buffer and curved trenches are outside.',
+   technique='symbolic execution of clang LLVM IR + z3 (FP bit-precise for the box, QF_NRA for the culling lemma with an environment contract)', design='4/C07'),
+ 'C10': dict(
+   text='Interpolation half only: with kernel and per-segment models stubbed, every interpolated quantity of SubductingPlate/Fault::properties (thickness, top truncation, length handed to the models, temperature, composition, velocity) is proved equal to a + f(b-a) with a, b taken from sections cur and cur+1 only, hence convex for f in [0,1], equal to a section\'s own value at its coordinate, and independent of every other section.',
+   note=TB + 'NOT covered: inheritance of models from feature/section level to segments (implemented by copying JSON sub-trees in parameters.cc with rapidjson pointers and std::string paths - not encodable here); quaternion slerp of grain rotations.',
+   technique='symbolic execution of clang LLVM IR + z3 (QF_NRA), 3 sections x 1-2 segments, stub models', design='4/C10'),
 }
 NA_DEFAULT = 'check not built yet (work in progress; see DESIGN.md section 4 for the planned obligations)'
 NA = {
